@@ -184,7 +184,9 @@ XalanNamespacesStack::XalanNamespacesStack(MemoryManager& theManager) :
     m_resultNamespaces(theManager, 1),
     m_stackBegin(m_resultNamespaces.begin()),
     m_stackPosition(m_stackBegin),
-    m_createNewContextStack(theManager)
+    m_createNewContextStack(theManager),
+    m_scopeBase(0),
+    m_scopeBaseStack(theManager)
 {
     // m_resultNamespaces is initialized to a size of
     // 1, so we always have a dummy entry at the
@@ -266,18 +268,43 @@ XalanNamespacesStack::popContext()
 
 
 
+void
+XalanNamespacesStack::pushIsolatedScope()
+{
+    m_scopeBaseStack.push_back(m_scopeBase);
+
+    m_scopeBase = size_type(NamespacesStackType::const_iterator(m_stackPosition) -
+                            NamespacesStackType::const_iterator(m_stackBegin));
+}
+
+
+
+void
+XalanNamespacesStack::popIsolatedScope()
+{
+    if (m_scopeBaseStack.empty() == false)
+    {
+        m_scopeBase = m_scopeBaseStack.back();
+
+        m_scopeBaseStack.pop_back();
+    }
+}
+
+
+
 const XalanDOMString*
 XalanNamespacesStack::findEntry(
             const XalanDOMString&   theKey,
             MemberFunctionType      theFunction) const
 {
-    if (m_stackPosition == m_stackBegin)
+    if (m_stackPosition == m_stackBegin + m_scopeBase)
     {
         return 0;
     }
     else
     {
-        NamespacesStackType::const_iterator     theBegin(m_stackBegin);
+        // Only the entries of the current (isolated) scope are searched.
+        NamespacesStackType::const_iterator     theBegin(m_stackBegin + m_scopeBase + 1);
         NamespacesStackType::const_iterator     theEnd(m_stackPosition + 1);
 
         const XalanDOMString*   theValue = 0;
@@ -320,13 +347,13 @@ XalanNamespacesStack::getNamespaceForPrefix(const XalanDOMString&   thePrefix) c
 const XalanDOMString*
 XalanNamespacesStack::getPrefixForNamespace(const XalanDOMString&   theURI) const
 {
-    if (m_stackPosition == m_stackBegin)
+    if (m_stackPosition == m_stackBegin + m_scopeBase)
     {
         return 0;
     }
     else
     {
-        NamespacesStackType::const_iterator     theBegin(m_stackBegin);
+        NamespacesStackType::const_iterator     theBegin(m_stackBegin + m_scopeBase + 1);
         NamespacesStackType::const_iterator     theEnd(m_stackPosition + 1);
 
         // Search from the innermost context outwards, newest declaration
@@ -397,6 +424,10 @@ XalanNamespacesStack::clear()
     m_stackPosition = m_stackBegin;
 
     m_createNewContextStack.clear();
+
+    m_scopeBase = 0;
+
+    m_scopeBaseStack.clear();
 }
 
 
